@@ -2,9 +2,13 @@
 
 Spec: spec/Motor.tla (the law on exact integers + its consequences), spec/MC_Motor.tla (the
 consequences, exhaustively on a small grid), spec/MotorRun.tla over spec/Ebpf.tla (the binding).
-The program the REAL generator emits for FastSyncGroup([Motor]) linked to the bundled EL7041 is
-executed by TLC on every input of a boundary grid + seeded random inputs; the expected command is
-computed in the spec from the memory the program starts on."""
+The program the REAL generator emits for FastSyncGroup([Motor]) linked to EVERY bundled terminal a
+Motor can be linked to (EL7041, EL7332 channels, EL7062 channels; encoder of the same terminal, of an
+EL5042 or of an EL7041; PDO tables from the package's own parse_pdos over the device's CoE
+dictionary, harness/motorterms.py) is executed by TLC on every input of a boundary grid + seeded
+random inputs; the expected command is computed in the spec from the memory the program starts on.
+What the bytes of the frame MEAN (velocity and position are signed numbers of the mapped width) comes
+from the device description, not from the terminal class under test."""
 import random
 
 from harness import tlc as T, progs, pvgroup as FG
@@ -16,85 +20,92 @@ U32 = 2 ** 32
 I16MAX = 32767
 
 
-# ---- the real group -----------------------------------------------------------------------------
+# ---- the real groups --------------------------------------------------------------------------------
+# Every bundled terminal class a Motor can be linked to (harness/motorterms.py): EL7041, both
+# channels of the EL7332 (encoder from another bundled terminal) and of the EL7062.  The terminal
+# objects are the bundled classes; their PDO tables come from the package's own parse_pdos over the
+# device's CoE dictionary (two EL7041 layouts keep a hand-written table at other places).  Where a
+# quantity lives and what it is (velocity and position: SIGNED numbers of the mapped width) is taken
+# from the device description, never from the class under test.
 
-LAYOUTS = {
-    # the map an EL7041 reports for out_pdos 1601/1602/1604 and in_pdos 1A01/1A03 (ENC control 6
-    # bytes, STM control 2, STM velocity 2; ENC status 2 + counter 4 + latch 4, STM status 2)
-    "fmmu": dict(use_fmmu=True, position=5, in_sz=12, out_sz=10,
+HAND = {
+    "fmmu": dict(in_sz=12, out_sz=10,
                  pdos={(0x7010, 1): ("OUT", 6, 0), (0x7010, 2): ("OUT", 6, 1), (0x7010, 3): ("OUT", 6, 2),
                        (0x7010, 0x21): ("OUT", 8, "H"),
                        (0x6000, 0x11): ("IN", 2, "I"),
                        (0x6010, 1): ("IN", 10, 0), (0x6010, 2): ("IN", 10, 1), (0x6010, 4): ("IN", 10, 3),
                        (0x6010, 0xc): ("IN", 11, 3), (0x6010, 0xd): ("IN", 11, 4)}),
-    # the same entries at other places, addressed without FMMU (two datagrams of its own)
-    "nofmmu": dict(use_fmmu=False, position=9, in_sz=9, out_sz=5,
+    "direct": dict(in_sz=9, out_sz=5,
                    pdos={(0x7010, 1): ("OUT", 0, 5), (0x7010, 2): ("OUT", 0, 6), (0x7010, 3): ("OUT", 0, 7),
                          (0x7010, 0x21): ("OUT", 3, "H"),
                          (0x6000, 0x11): ("IN", 5, "I"),
                          (0x6010, 1): ("IN", 0, 0), (0x6010, 2): ("IN", 0, 1), (0x6010, 4): ("IN", 0, 3),
                          (0x6010, 0xc): ("IN", 1, 0), (0x6010, 0xd): ("IN", 1, 7)}),
 }
+LAYOUTS = {
+    "EL7041/hand-fmmu": dict(motor=("EL7041", 1), fmmu=True, position=5, hand="fmmu"),
+    "EL7041/hand-direct": dict(motor=("EL7041", 1), fmmu=False, position=9, hand="direct"),
+    "EL7041": dict(motor=("EL7041", 1), fmmu=True, position=3),
+    "EL7332.1+EL5042.2": dict(motor=("EL7332", 1), fmmu=True, position=7,
+                              encoder=dict(kind="EL5042", chan=2, fmmu=False, position=9)),
+    "EL7332.2+EL7041": dict(motor=("EL7332", 2), fmmu=False, position=12,
+                            encoder=dict(kind="EL7041", chan=1, fmmu=True, position=4)),
+    "EL7062.1": dict(motor=("EL7062", 1), fmmu=True, position=2),
+    "EL7062.2": dict(motor=("EL7062", 2), fmmu=False, position=6),
+}
 FMTSZ = {"b": 1, "B": 1, "h": 2, "H": 2, "i": 4, "I": 4, "q": 8, "Q": 8}
 
 
 def build(layout):
-    """FastSyncGroup([Motor]) on an EL7041 with a hand-written PDO map; returns (Built, mot, frame)
-    where mot says where each quantity lives and in which format the real declarations give it"""
-    from ebpfcat.ethercat import SyncManager
-    from ebpfcat.terminals import EL7041
+    """FastSyncGroup([Motor]) on the layout's bundled terminals; returns dict(b, mot, frame, wkc, dgs,
+    outbits, posbits): mot says where each quantity lives and what it is"""
     from ebpfcat.devices import Motor
+    from harness import motorterms as MT
     L = LAYOUTS[layout]
-    sm = {"IN": SyncManager.IN, "OUT": SyncManager.OUT}
+    kind, chan = L["motor"]
     ec = FG.simple_ec()
-    t = EL7041(ec)
-    t.position = L["position"]
-    t.use_fmmu = L["use_fmmu"]
-    t.pdo_in_sz, t.pdo_out_sz = L["in_sz"], L["out_sz"]
-    t.pdo_in_off, t.pdo_out_off = 0x1100, 0x1000
-    t.pdos = {k: (sm[s], off, what) for k, (s, off, what) in L["pdos"].items()}
+    mt, mwhere = MT.make_terminal(ec, kind, L["position"], L["fmmu"], 0x1100, 0x1000,
+                                  hand=HAND[L["hand"]] if L.get("hand") else None)
+    descr = [dict(position=mt.position, use_fmmu=mt.use_fmmu, in_sz=mt.pdo_in_sz, out_sz=mt.pdo_out_sz,
+                  in_off=0x1100, out_off=0x1000, rw=True)]
+    enc = L.get("encoder")
+    if enc:
+        et, ewhere = MT.make_terminal(ec, enc["kind"], enc["position"], enc["fmmu"], 0x1180, 0x1080)
+        ekind, echan, eno = enc["kind"], enc["chan"], 1
+        descr.append(dict(position=et.position, use_fmmu=et.use_fmmu, in_sz=et.pdo_in_sz,
+                          out_sz=et.pdo_out_sz, in_off=0x1180, out_off=0x1080, rw=False))
+    else:
+        et, ewhere, ekind, echan, eno = mt, mwhere, kind, chan, 0
     m = Motor()
-    m.velocity = t.velocity
-    m.encoder = t.stepcounter
-    m.low_switch = t.low_switch
-    m.high_switch = t.high_switch
-    m.enable = t.enable
+    ch = MT.channel(mt, kind, chan)
+    m.velocity = getattr(ch, MT.attr_name(kind, "velocity"))
+    m.low_switch = getattr(ch, MT.attr_name(kind, "low"))
+    m.high_switch = getattr(ch, MT.attr_name(kind, "high"))
+    m.enable = getattr(ch, MT.attr_name(kind, "enable"))
+    m.encoder = getattr(MT.channel(et, ekind, echan), MT.attr_name(ekind, "counter"))
     b = FG.build_fast(ec, [m])
     sg = b.inst
     frame = bytes(FG.ETH) + sg.packet.assemble(0)
-    # where the terminal's regions are, read off the frame itself
-    dgs = FG.datagrams(frame, FG.ETH)
-    if L["use_fmmu"]:
-        (rd,) = [d for d in dgs if d[0] == 10]          # LRD
-        (wr,) = [d for d in dgs if d[0] == 11]          # LWR
-    else:
-        (rd,) = [d for d in dgs if d[0] == 4]           # FPRD
-        (wr,) = [d for d in dgs if d[0] == 5]           # FPWR
-    if rd[3] != L["in_sz"] or wr[3] != L["out_sz"]:
-        raise T.MachineryError(f"unexpected frame layout {dgs}")
-    base = {"IN": rd[2], "OUT": wr[2]}
+    reg, dgs = MT.regions(frame, descr, FG.ETH)          # the regions, read off the frame itself
 
-    def fmt_of(desc, key):                 # the format the terminal class declares, else the map's
-        return desc.size if desc.size is not None else L["pdos"][key][2]
-
-    def var(desc):
-        key = (desc.index, desc.subindex)
-        s, off, _ = L["pdos"][key]
-        f = fmt_of(desc, key)
-        if isinstance(f, int):
-            return dict(off=base[s] + off, bit=f)
-        return dict(off=base[s] + off, n=FMTSZ[f], s=int(f.islower()))
+    def var(tno, where, role, signed=None):
+        sm, byte, bit, nbytes = MT.locate(where, role)
+        if nbytes is None:
+            return dict(off=reg[tno, sm] + byte, bit=bit)
+        return dict(off=reg[tno, sm] + byte, n=nbytes, s=signed)
 
     def prop(name):
         f = getattr(Motor, name).fmt
         return dict(off=m.__dict__[name], n=FMTSZ[f], s=int(f.islower()))
 
+    R, ER = MT.ROLES[kind][chan], MT.ROLES[ekind][echan]
     mot = dict(fd=1, target=prop("target"), gain=prop("proportional"), acc=prop("max_acceleration"),
                vmax=prop("max_velocity"), sen=prop("set_enable"),
-               pos=var(EL7041.stepcounter), vel=var(EL7041.velocity),
-               low=var(EL7041.low_switch), high=var(EL7041.high_switch), en=var(EL7041.enable))
+               pos=var(eno, ewhere, ER["counter"], 1), vel=var(0, mwhere, R["velocity"], 1),
+               low=var(0, mwhere, R["low"]), high=var(0, mwhere, R["high"]), en=var(0, mwhere, R["enable"]))
     wkc = dict(off=sg.__dict__["wkc_errors"], n=4)
-    return b, mot, frame, wkc, (rd, wr)
+    return dict(b=b, mot=mot, frame=frame, wkc=wkc, dgs=dgs, outbits=8 * mot["vel"]["n"],
+                posbits=8 * mot["pos"]["n"])
 
 
 # ---- inputs ---------------------------------------------------------------------------------------
@@ -103,8 +114,13 @@ def fits(v, lo, hi):
     return lo <= v <= hi
 
 
-def split_diff(diff, alt):
-    """(target, position) with target - position = diff, target unsigned 32, position signed 32"""
+def split_diff(diff, alt, posbits=32):
+    """(target, position) with target - position = diff, target unsigned 32, position signed"""
+    pmax = 2 ** (posbits - 1) - 1
+    if posbits > 32 and alt == 0:                         # a position far outside 32 bits
+        t = U32 - 1 - (abs(diff) % 1000)
+        if fits(t - diff, -pmax - 1, pmax):
+            return t, t - diff
     if alt == 1 and fits(diff - 1, 0, U32 - 1):
         return diff - 1, -1
     if alt == 2 and fits(diff + 2 ** 31 - 1, 0, U32 - 1):
@@ -117,52 +133,55 @@ def split_diff(diff, alt):
 GAINS = [1, 2, 3, 7, 1000, 65536, 2 ** 31, 2 ** 31 - 1, U32 - 1, 1532540863, 649657]
 
 
-def realise(d, alt):
+def realise(d, alt, posbits=32):
     """inputs (target, pos, gain) whose desired velocity is exactly d, or None"""
+    pmax = 2 ** (posbits - 1) - 1
     order = GAINS[alt % 3:] + GAINS[:alt % 3] if alt else GAINS
     for g in order:
         if d % g:
             continue
         diff = d // g
-        if -(2 ** 31 - 1) <= diff <= U32 - 1 + 2 ** 31:
-            t, p = split_diff(diff, alt)
-            if fits(t, 0, U32 - 1) and fits(p, -2 ** 31, 2 ** 31 - 1):
+        if -pmax <= diff <= U32 - 1 + pmax + 1:
+            t, p = split_diff(diff, alt, posbits)
+            if fits(t, 0, U32 - 1) and fits(p, -pmax - 1, pmax):
                 return t, p, g
     return None
 
 
-def grid():
-    """the deterministic boundary grid (thorough = all of it, quick = every 13th)"""
+def grid(outbits=16, posbits=32):
+    """the deterministic boundary grid for a signed velocity output of `outbits` bits and a signed
+    position of `posbits` bits (the tiers take every k-th element)"""
+    OM, TOP, pmax = 2 ** (outbits - 1) - 1, 2 ** outbits, 2 ** (posbits - 1) - 1
     out = []
     n = 0
-    for vmax in (0, 1, 256, 1000, I16MAX - 1, I16MAX):
+    for vmax in (0, 1, 256, 1000, OM - 1, OM):
         prevs = sorted({p for p in (-vmax, -vmax + 1, -1, 0, 1, vmax - 1, vmax) if abs(p) <= vmax})
-        accs = sorted({0, 1, 50, I16MAX - vmax, I16MAX + 1 - vmax, I16MAX + 1, 65535, 65536,
-                       2 ** 31 - 1, 2 ** 31, U32 - 1})
+        accs = sorted(a for a in {0, 1, 50, OM - vmax, OM + 1 - vmax, OM + 1, TOP - 1, TOP,
+                                  2 ** 31 - 1, 2 ** 31, U32 - 1} if a < U32)
         for prev in prevs:
             for acc in accs:
                 aimed = sorted({x + e for x in (prev - acc, prev + acc, -vmax, vmax, 0) for e in (-1, 0, 1)})
-                far = [s * x for x in (I16MAX, I16MAX + 1, I16MAX + 2, 65536, 100000, 2 ** 31, U32)
+                far = [s * x for x in sorted({OM, OM + 1, OM + 2, TOP, 100000, 2 ** 31, U32})
                        for s in (1, -1)] + [2 ** 63 - 1, -(2 ** 63) + 2 ** 31]
                 for d in aimed:
                     for sw in range(4):
-                        r = realise(d, n % 3)
+                        r = realise(d, n % 3, posbits)
                         n += 1
                         if r:
                             out.append(dict(zip(("target", "pos", "gain"), r), acc=acc, vmax=vmax,
                                             prev=prev, low=sw & 1, high=sw >> 1, fam="aimed"))
                 for d in far:
-                    r = realise(d, n % 3)
+                    r = realise(d, n % 3, posbits)
                     n += 1
                     if r:
                         out.append(dict(zip(("target", "pos", "gain"), r), acc=acc, vmax=vmax, prev=prev,
                                         low=n & 1, high=(n >> 1) & 1, fam="far"))
     # raw extremes of the three inputs of the product
-    for vmax in (1000, I16MAX):
+    for vmax in (1000, OM):
         for prev in (-vmax, 0, vmax):
-            for acc in (1, I16MAX + 1, U32 - 1):
+            for acc in (1, OM + 1, U32 - 1):
                 for target in (0, 1, 2 ** 31 - 1, 2 ** 31, U32 - 1):
-                    for pos in (-2 ** 31, -1, 0, 1, 2 ** 31 - 1):
+                    for pos in (-pmax - 1, -2 ** 31, -1, 0, 1, 2 ** 31 - 1, pmax):
                         for gain in (0, 1, 2, 2 ** 31 - 1, 2 ** 31, U32 - 1):
                             n += 1
                             if fits(gain * (target - pos), -2 ** 63, 2 ** 63 - 1):
@@ -177,17 +196,18 @@ def logu(rng, top):
     return min(top, rng.randrange(1 << bits) if bits else 0)
 
 
-def randoms(rng, count):
+def randoms(rng, count, outbits=16, posbits=32):
+    OM, pmax = 2 ** (outbits - 1) - 1, 2 ** (posbits - 1) - 1
     out = []
     while len(out) < count:
-        vmax = rng.choice((logu(rng, I16MAX), rng.randrange(I16MAX + 1)))
+        vmax = rng.choice((logu(rng, OM), rng.randrange(OM + 1)))
         prev = rng.randint(-vmax, vmax)
         acc = logu(rng, U32 - 1)
         gain = logu(rng, U32 - 1)
         target = rng.choice((logu(rng, U32 - 1), rng.randrange(U32)))
-        pos = rng.choice((1, -1)) * logu(rng, 2 ** 31 - 1)
+        pos = rng.choice((1, -1)) * logu(rng, pmax)
         if rng.random() < .3:                           # near the target: the interesting region
-            pos = max(-2 ** 31, min(2 ** 31 - 1, min(target, 2 ** 31 - 1) - rng.randint(-40, 40)))
+            pos = max(-pmax - 1, min(pmax, min(target, pmax) - rng.randint(-40, 40)))
         if not fits(gain * (target - pos), -2 ** 63, 2 ** 63 - 1):
             continue
         out.append(dict(target=target, pos=pos, gain=gain, acc=acc, vmax=vmax, prev=prev,
@@ -208,9 +228,9 @@ def putbit(buf, b, value):
 def make_case(built, inp, fill):
     """fill: Random used for everything the property does not talk about (other frame bytes,
     set_enable, the counter of enabling passes)"""
-    b, mot, frame, wkc, (rd, wr) = built
+    b, mot, frame, wkc = built["b"], built["mot"], built["frame"], built["wkc"]
     pkt = bytearray(frame)
-    for d in (rd, wr):                                   # process data of both regions: arbitrary
+    for d in built["dgs"][1:]:                           # all process data: arbitrary
         pkt[d[2]:d[2] + d[3]] = bytes(fill.randrange(256) for _ in range(d[3]))
     put(pkt, mot["pos"], inp["pos"])
     put(pkt, mot["vel"], inp["prev"])
@@ -240,10 +260,10 @@ def kernel_crosscheck(ctx, builts, cases, meta, verdicts):
     fds, n = {}, 0
     try:
         for name, built in builts.items():
-            fds[name] = kernel.prog_load(built[0].code)
+            fds[name] = kernel.prog_load(built["b"].code)
         for i in range(0, len(cases), 23):
             c, m = cases[i], meta[i]
-            b, mot = builts[m["layout"]][0], builts[m["layout"]][1]
+            b, mot = builts[m["layout"]]["b"], builts[m["layout"]]["mot"]
             kernel.map_update(b.maps[0]["fd"], bytes(4), bytes(c["arr"][0]["bytes"]))
             rv, out = kernel.test_run(fds[m["layout"]], bytes(c["pkt"]))
             got = list(out[mot["vel"]["off"]:mot["vel"]["off"] + mot["vel"]["n"]])
@@ -291,24 +311,35 @@ def run(ctx):
     except Exception as e:                               # the property requires a program: a case result
         ctx.evaluated("build", nontrivial=True)
         ctx.case_failed(dict(kind="not-built", error=f"{type(e).__name__}: {e}"),
-                        f"FastSyncGroup([Motor]) on an EL7041 cannot be assembled: {type(e).__name__}: {e}")
+                        f"FastSyncGroup([Motor]) on a bundled motor terminal cannot be assembled: "
+                        f"{type(e).__name__}: {e}")
         return
-    g = grid()
-    ctx.extra["grid_size_full"] = len(g)
-    inputs = g[::13] if ctx.quick else g
-    inputs = inputs + randoms(ctx.rng, 300 if ctx.quick else 2000)
+    # each layout takes its share of the grid that fits its widths (velocity output, position)
+    groups = {}
+    for name, bt in builts.items():
+        groups.setdefault((bt["outbits"], bt["posbits"]), []).append(name)
+    stride = {(16, 32): (29, 1), (16, 64): (89, 11), (32, 32): (53, 7)}
     fill = random.Random(2626)                           # seed-independent filler for the grid
     cases, meta = [], []
-    for n, inp in enumerate(inputs):
-        layout = "fmmu" if n % 3 else "nofmmu"
-        cs, sen = make_case(builts[layout], inp, fill if inp["fam"] != "random" else ctx.rng)
-        cases.append(cs)
-        meta.append(dict(inp, layout=layout, set_enable=sen))
+    sizes = {}
+    for widths, names in sorted(groups.items()):
+        g = grid(*widths)
+        sizes[f"{widths[0]}-bit output, {widths[1]}-bit position"] = len(g)
+        sub = g[::stride[widths][0 if ctx.quick else 1]]
+        nrand = (40 if ctx.quick else 220) * len(names)
+        for i, inp in enumerate(sub + randoms(ctx.rng, nrand, *widths)):
+            layout = names[(i // 5) % len(names)]        # blocks of 5: every layout sees every switch state
+            cs, sen = make_case(builts[layout], inp, fill if inp["fam"] != "random" else ctx.rng)
+            cases.append(cs)
+            meta.append(dict(inp, layout=layout, set_enable=sen, outbits=widths[0]))
+    ctx.extra["grid_size_full"] = sizes
     verdicts = FG.run_sharded(ctx, "MotorRun", "MotorRunObserve.cfg", cases, "VERDICT",
-                              shards=8)
+                              shards=8 if ctx.quick else 12)
     ctx.rule = ("boundary grid of (desired velocity aimed at each limit -1/0/+1 and far beyond the output's "
                 "range, acceleration limit, velocity limit, previous velocity, switches) pruned by the "
-                "property's preconditions (quick: every 13th) + seeded random inputs, on two PDO layouts; "
+                "property's preconditions (a fixed stride per tier) + seeded random inputs, on every bundled "
+                "terminal a Motor can be linked to (EL7041 x 3 PDO layouts, EL7332 channels 1/2 with the encoder of "
+                "an EL5042 / EL7041, EL7062 channels 1/2; PDO tables from the package's own parse_pdos); "
                 "non-trivial = preconditions hold (TLC's judgement) and the law's three stages do not all "
                 "coincide with the desired velocity")
     ctx.assumptions.append("the group's outputs are enabled (wkc_errors != 0), as after SyncGroupBase.run's "
@@ -336,13 +367,14 @@ def run(ctx):
             ctx.case_failed(dict(case, kind="law-theorem"), f"consequences of the law fail on {m}")
         if not commanded:
             ctx.case_failed(dict(case, kind="velocity"),
-                            f"Motor program wrote velocity bytes {got} (final state {st}), the law gives "
+                            f"Motor program on {m['layout']} wrote velocity bytes {got} (final state {st}), the law gives "
                             f"{exp}: target={m['target']} pos={m['pos']} gain={m['gain']} acc={m['acc']} "
                             f"vmax={m['vmax']} prev={m['prev']} low={m['low']} high={m['high']} "
                             f"(desired {d}, acceleration-limited {law(m)})")
         if not enable:
             ctx.case_failed(dict(case, kind="enable"),
-                            f"enable bit does not follow set_enable={m['set_enable']} (final state {st})")
+                            f"enable bit on {m['layout']} does not follow set_enable={m['set_enable']} "
+                            f"(final state {st})")
 
 
 # ---- defect classes seen on the unchanged tree (for tallying failures; not used for judging) -------
